@@ -4,5 +4,6 @@ let () =
   | "config" -> D_config.run ()
   | "exec" -> D_exec.run ()
   | "cli" -> D_cli.run ()
+  | "escape" -> D_escape.run ()
   | "validate" -> D_exec.run_validate ()
   | x -> prerr_endline ("unknown " ^ x); exit 2
